@@ -76,6 +76,20 @@ class SimClock:
     def sleep(self, secs):
         self.advance(secs)
 
+    def monotonic(self):
+        # never goes backwards, but jumps forward with the simulated clock (a stalled process, a suspended VM)
+        t = self._read()
+        self._mono = max(getattr(self, '_mono', t), t)
+        return self._mono
+
+    perf_counter = monotonic
+    process_time = monotonic
+
+    def monotonic_ns(self):
+        return int(self.monotonic() * 1e9)
+
+    perf_counter_ns = monotonic_ns
+
     def __getattr__(self, name):
         if name in ('struct_time', 'mktime', 'tzname'):
             return getattr(_real_time, name)
@@ -406,6 +420,10 @@ class World:
         writers.gzip = self.gzip
         if 'os' in vars(writers):      # not at the pinned commit; see OsShim
             writers.os = OsShim(self.fs)
+        # any other segno module that reads a clock (none does at the pinned commit) gets the simulated one too
+        for name, mod in list(sys.modules.items()):
+            if name.startswith('segno.') and name != 'segno.writers' and getattr(mod, 'time', None) is _real_time:
+                mod.time = self.clock
         return self
 
     @staticmethod
